@@ -34,7 +34,7 @@ EXPLANATION = ("Theorems: index normalisation (negative indices address the same
                "remaining ++ eliminated, and queries are pure functions of the recorded rounds. Monitors: profile "
                "candidates = remaining candidates, re-scoring reproduces the recorded tallies.")
 
-N_QUICK, N_THOROUGH = 800, 9600
+N_QUICK, N_THOROUGH = 800, 28800
 QUERIES = ["get_profile", "get_step", "get_elected", "get_eliminated", "get_remaining", "get_ranking", "get_status_df"]
 
 
